@@ -42,6 +42,11 @@ def replay_file(mod, path, quiet=False):
             unit.body(ctx, case)
     except PropertyViolation as v:
         return v.kind, v.detail
+    except Exception as e:  # noqa: BLE001
+        where = ctx.blame(e)
+        if where is None:
+            raise
+        return "code_under_test_raises", "%s: %s at %s" % (type(e).__name__, str(e)[:300], where)
     return None, ""
 
 
